@@ -106,4 +106,10 @@ def pipeline_specs():
         ("C(A, Poly)", ref.poly(3), levels),
         ("C(A, contr.SAS(base='x'))", ref.as_float(ref.sas(3, 0)), levels),
         ("C(A, contr.poly(scores=[1, 2, 4]))", ref.poly(3, [1.0, 2.0, 4.0]), levels),
+        # levels nominated WITHOUT one of the values present ('z' rows have an all-zero indicator: their coding row is zero)
+        ("C(A, contr.sum, levels=['x', 'y'])", ref.as_float(ref.sum_(2)), ["x", "y"]),
+        ("C(A, contr.helmert, levels=['y', 'x'])", ref.as_float(ref.helmert(2)), ["y", "x"]),
+        ("C(A, contr.diff, levels=['x', 'y'])", ref.as_float(ref.diff(2)), ["x", "y"]),
+        ("C(A, contr.poly, levels=['x', 'y'])", ref.poly(2), ["x", "y"]),
+        ("C(A, levels=['y', 'x'])", ref.as_float(ref.treatment(2, 0)), ["y", "x"]),
     ]
